@@ -16,11 +16,24 @@ import time
 PARENT = int(os.environ.get("C10_PARENT_PID", "0"))
 
 
+def signum(how):
+    """'SIGKILL', 'SIGUSR1', ... or 'SIGRT+k' = SIGRTMIN+k (k >= 1: real-time signals WITHOUT a name in
+    signal.Signals, e.g. 35 on Linux) or a plain number"""
+    if how.startswith("SIGRT+"):
+        return signal.SIGRTMIN + int(how[6:])
+    if how.isdigit():
+        return int(how)
+    return int(getattr(signal, how))
+
+
 def die(how):
     if os.getpid() == PARENT:
         return
     if how == "SIGKILL":
         os.kill(os.getpid(), signal.SIGKILL)
+    elif how not in ("SIGSEGV", "exit", "SIGTERM"):
+        os.kill(os.getpid(), signum(how))      # default action of every signal used here: terminate
+        time.sleep(30)
     elif how == "SIGSEGV":
         import faulthandler
         faulthandler._sigsegv()
@@ -89,7 +102,7 @@ class KillOnPickle:
         if os.getpid() == PARENT:
             for p in self.pids:
                 try:
-                    os.kill(p, getattr(signal, self.sig))
+                    os.kill(p, signum(self.sig))
                 except ProcessLookupError:
                     pass
         return (int, (self.value,))
